@@ -45,6 +45,55 @@ Theorem C06_cached_safe_partial : forall (score : N -> vec -> vec -> N) q k (sna
   /\ forall key sc, In (key, sc) r -> exists v, In (key, v) snap /\ sc = score 10 q v.
 Proof. exact cached_search_safe. Qed.
 
+(* Clause 2, the index search itself (PARTIAL: search code only).  HNSWIndex::search_layer over an
+   ARBITRARY layer graph (nbrs), distance table (dist), heap discipline (pick_min / pick_max: any
+   functions that remove one element) and fuel, followed by search_with_ef's take-k and
+   distance->similarity conversion: distinct node ids, all in range, each with the similarity of
+   its own distance.  Graph CONSTRUCTION (neighbour selection, level sampling) is not modelled, so
+   recall is not claimed; the model of the search loop is tied to hnsw.rs by reading only (no hook
+   exports the real graph), the facts themselves are checked on the real index's answers by the
+   harness. *)
+Theorem C06_hnsw_search_safe_partial : forall (nbrs : nat -> list nat) (dist : nat -> N)
+    (pick_min pick_max : list (nat * N) -> option ((nat * N) * list (nat * N))) (ef n : nat),
+  (forall l x r, pick_min l = Some (x, r) -> Permutation l (x :: r)) ->
+  (forall l x r, pick_max l = Some (x, r) -> Permutation l (x :: r)) ->
+  (forall i j, (i < n)%nat -> In j (nbrs i) -> (j < n)%nat) ->
+  forall (to_sim : N -> N) (fuel entry k : nat), (entry < n)%nat ->
+  let h := hnsw_hits nbrs dist pick_min pick_max ef to_sim fuel entry k in
+  NoDup (map fst h) /\ forall i sc, In (i, sc) h -> (i < n)%nat /\ sc = to_sim (dist i).
+Proof. exact hnsw_hits_safe. Qed.
+
+(* the upper layers' greedy descent never leaves the graph *)
+Theorem C06_hnsw_greedy_in_range_partial : forall (nbrs : nat -> list nat) (dist : nat -> N) (n : nat),
+  (forall i j, (i < n)%nat -> In j (nbrs i) -> (j < n)%nat) ->
+  forall fuel cur, (cur < n)%nat -> (greedy nbrs dist fuel cur < n)%nat.
+Proof. exact greedy_in_range. Qed.
+
+(* engine and index search composed: the cached branch returns at most k entries, ordered, without
+   duplicate keys, every key an indexed vector with its true score -- for every layer graph *)
+Theorem C06_cached_path_safe_partial : forall (score : N -> vec -> vec -> N) q k (snap : list (N * vec))
+    nbrs dist pick_min pick_max ef to_sim fuel entry,
+  NoDup (map fst snap) ->
+  (forall l x r, pick_min l = Some (x, r) -> Permutation l (x :: r)) ->
+  (forall l x r, pick_max l = Some (x, r) -> Permutation l (x :: r)) ->
+  (forall i j, (i < length snap)%nat -> In j (nbrs i) -> (j < length snap)%nat) ->
+  (entry < length snap)%nat ->
+  (forall i kv, nth_error snap i = Some kv -> score 10 q (snd kv) = to_sim (dist i)) ->
+  (forall i, (i < length snap)%nat -> f_isnan (to_sim (dist i)) = false) ->
+  let r := search_cached (map fst snap) (hnsw_hits nbrs dist pick_min pick_max ef to_sim fuel entry k) k in
+  (length r <= k)%nat
+  /\ StronglySorted (fun a b => (f_key (snd b) <= f_key (snd a))%Z) r
+  /\ NoDup (map fst r)
+  /\ forall key sc, In (key, sc) r -> exists v, In (key, v) snap /\ sc = score 10 q v.
+Proof. exact cached_path_safe. Qed.
+
+Example C06_hnsw_nonvacuous :
+  let nbrs := fun i : nat => match i with O => [1; 2] | S O => [0; 2; 3] | S (S O) => [0; 1] | _ => [1] end%nat in
+  let dist := fun i : nat => match i with O => 1065353216 | S O => 1056964608 | S (S O) => 1073741824 | _ => 1048576000 end in
+  let pick := fun (l : list (nat * N)) => match l with [] => None | x :: r => Some (x, r) end in
+  map fst (hnsw_hits nbrs dist pick pick 2 (fun d => d) 10 0 2) = [1; 0]%nat.
+Proof. vm_compute. reflexivity. Qed.
+
 (* Clause 2, "the index is never consulted after the data it was built from changed": in every
    state reachable by any program, a cached index stands for exactly the collection's current
    vectors (all of one dimension).  Uses the per-run fact that every mutator invalidates. *)
@@ -71,6 +120,42 @@ Proof.
   exact (cache_discipline gen_invalidates gen_keep gen_eps_bits gen_thr_num gen_thr_den
            gen_all_invalidate ops [] (CacheInv_init)).
 Qed.
+
+(* searches with a metadata filter (search_similar_filtered / search_filtered_in_collection, any
+   strategy): an exact search over the stored vectors that match the filter -- C06_exact_topk applies
+   with d := those vectors -- or, with a valid cached index, index candidates restricted to them *)
+Theorem C06_filtered_search_path : forall ops t c q k b strat,
+  let s := run gen_invalidates gen_keep gen_eps_bits gen_thr_num gen_thr_den [] ops in
+  match filtered_path gen_cached_dim_guard gen_post_filter_fallback s t c q k b strat with
+  | FExact m => m = matching t c b (data (cget s c))
+  | FCachedOrExact snap m => snap = data (cget s c) /\ m = matching t c b (data (cget s c))
+  | FErr _ | FEmpty => True
+  | _ => False
+  end.
+Proof.
+  intros ops t c q k b strat. rewrite gen_dim_guard, gen_fallback. apply filtered_path_sound.
+  exact (cache_discipline gen_invalidates gen_keep gen_eps_bits gen_thr_num gen_thr_den
+           gen_all_invalidate ops [] (CacheInv_init)).
+Qed.
+
+(* KNOWN FINDING reserved-default-name.  The implementation keys its cache map by collection NAME and
+   stores the default collection's index under the name "_default" (unit tests pin both key
+   choices).  The theorems above are about collection ids = distinct cache slots, i.e. named
+   collections not called "_default".  A named collection with that name consults the default
+   collection's slot (search_path_slot with the aliasing slot map; with the identity map it IS
+   search_path): even in a state satisfying the invariant it is answered from the other collection's
+   index. *)
+Theorem C06_search_path_slot_identity : forall dg s c q k,
+  search_path_slot dg (fun x => x) s c q k = search_path dg s c q k.
+Proof. exact search_path_slot_id. Qed.
+
+Theorem C06_reserved_name_refuted :
+  let s := run gen_invalidates gen_keep gen_eps_bits gen_thr_num gen_thr_den []
+             [OStore 0 0 [1065353216; 1065353216]; OBuild 0; OStore 9 7 [1073741824; 1065353216]] in
+  (forall c x snap, aget s c = Some x -> cache x = Some snap -> snap = data x /\ dims_consistent snap = true) /\
+  exists snap, search_path_slot true (fun c => if N.eqb c 9 then 0 else c) s 9 [1065353216; 1065353216] 1 = PCached snap
+               /\ snap <> data (cget s 9).
+Proof. exact (reserved_name_refuted gen_invalidates gen_keep gen_eps_bits gen_thr_num gen_thr_den gen_all_invalidate). Qed.
 
 (* the discipline is necessary: for ANY engine parameters, a mutator that does not invalidate
    admits a short program after which the cached index is stale (this is F-C06-stale; the four
@@ -103,9 +188,15 @@ Proof. vm_compute. reflexivity. Qed.
 
 Print Assumptions C06_exact_topk.
 Print Assumptions C06_cached_safe_partial.
+Print Assumptions C06_hnsw_search_safe_partial.
+Print Assumptions C06_hnsw_greedy_in_range_partial.
+Print Assumptions C06_cached_path_safe_partial.
 Print Assumptions C06_cache_discipline.
 Print Assumptions C06_search_path.
+Print Assumptions C06_filtered_search_path.
 Print Assumptions C06_cache_discipline_needed.
+Print Assumptions C06_search_path_slot_identity.
+Print Assumptions C06_reserved_name_refuted.
 Print Assumptions C06_sparse_roundtrip.
 Print Assumptions C06_normalise_zero_only_negzero.
 Print Assumptions C06_stored_readback.
